@@ -333,9 +333,9 @@ fn main() {
 
             let mut diags = Vec::new();
             let parsed = parser.parse_from_file(
-                lint.path
-                    .to_str()
-                    .expect("unable to convert path to string"),
+                // a name that is not valid UTF-8 cannot be passed on as it
+                // is: the import of the substitute fails and is reported
+                &lint.path.to_string_lossy(),
                 false,
             );
             parsed
@@ -391,12 +391,7 @@ fn main() {
             // Debug mode that prints out parsing errors only
             let reader = IOFileReader::new();
             let mut parser = RVParser::new(reader);
-            let parsed = parser.parse_from_file(
-                debu.input
-                    .to_str()
-                    .expect("unable to convert path to string"),
-                true,
-            );
+            let parsed = parser.parse_from_file(&debu.input.to_string_lossy(), true);
             for err in parsed.1 {
                 println!(
                     "({}, {}): {}",
